@@ -424,6 +424,10 @@ def run(tier: str, seed: int) -> int:
         if i % 5 == 2:
             c["cfg"] = dict(c["cfg"], fragments_module_name=["shared_query", "parts", "Fragments2"][(i // 5) % 3])
 
+    for c in cw.fraggraph_cases(PROP, tier, seed, 600 if tier == "thorough" else 80):
+        c.pop("props", None)
+        cases.append(c)
+
     def on_result(case, res):
         r.add(case, res)
         if res.status != "inconclusive":
